@@ -189,7 +189,8 @@ theorem printf (s : State) (h : Nat) (ct : Traits) (text : List Byte) (inv : Inv
 /-- slice-write: whole blocks are appended to the window of the slice handle — `k ≤ nblk` of them, at least one when
     blocks were offered (all of them when a new buffer is needed); every array handle other than the slice's own keeps
     its value (the window is `s.wins[h]` on the buffer of `h`; what `h` reads as an array is its buffer, which the
-    move-to-front path cuts down to the window); a refused call (typed buffer) changes no handle at all; nothing
+    move-to-front path cuts down to the window; what the array holds behind the window is scratch space: afterwards
+    it is the old rest minus the written bytes, or nothing — an array that ended with its window still does); a refused call (typed buffer) changes no handle at all; nothing
     faults.  Windows inside the data only (`wfit`); element size 0 ("prepare") is not modelled. -/
 theorem slice_write (s : State) (h nblk esz : Nat) (bytes : List Byte) (w : Win) (inv : Inv s) (hlt : h < s.hs.length)
     (e0 : esz ≠ 0) (bl : bytes.length = nblk * esz) (hw : s.win h = some w) (wfit : w.off + w.len ≤ (s.abs h).length) :
@@ -198,7 +199,9 @@ theorem slice_write (s : State) (h nblk esz : Nat) (bytes : List Byte) (w : Win)
     | .fail s' _ => Inv s' ∧ ∀ h', s'.abs h' = s.abs h'
     | .ok s' k => Inv s' ∧ k ≤ nblk ∧ (nblk ≠ 0 → 1 ≤ k) ∧ (∀ h', h' ≠ h → s'.abs h' = s.abs h') ∧
         ∃ w', s'.win h = some w' ∧
-          Vec.sub (s'.abs h) w'.off w'.len = Vec.sub (s.abs h) w.off w.len ++ Vec.blocks bytes k esz :=
+          Vec.sub (s'.abs h) w'.off w'.len = Vec.sub (s.abs h) w.off w.len ++ Vec.blocks bytes k esz ∧
+          ((s'.abs h).length - (w'.off + w'.len) = 0 ∨
+            (s'.abs h).length - (w'.off + w'.len) = (s.abs h).length - (w.off + w.len) - k * esz) :=
   sliceWrite_sem s h nblk esz bytes w inv hlt e0 bl hw wfit
 
 /-- `mpt_values_prepare` (mptplot/values, a caller of the buffer's detach): `len ≥ 0` appends `len` zeroed doubles,
